@@ -121,6 +121,33 @@ def isEffect : FsOp → Bool
 
 def essential (prog : List FsOp) : List FsOp := prog.filter isEffect
 
+/-- the named crash points, in program order -/
+def hookNames : List FsOp → List String
+  | [] => []
+  | .hook n :: rest => n :: hookNames rest
+  | _ :: rest => hookNames rest
+
+def isHook : FsOp → Bool
+  | .hook _ => true
+  | _ => false
+
+/-- on the list of effects and crash points only: every effect is directly followed by a crash
+    point, and a write is also directly preceded by one (where a write in progress is cut) -/
+def coveredAux : List FsOp → Bool
+  | [] => true
+  | [op] => !isEffect op
+  | op :: next :: rest =>
+    (if isEffect op then isHook next else true) &&
+    (match next with
+     | .write _ => isHook op
+     | _ => true) &&
+    coveredAux (next :: rest)
+
+/-- "every crash point between the file-system operations of a flush": the verif hooks of the
+    program leave no step of it without a crash point behind it -/
+def hooksCoverSteps (prog : List FsOp) : Bool :=
+  coveredAux (prog.filter (fun o => isEffect o || isHook o))
+
 /-- index just after the named hook: "the process dies at this crash point" -/
 def hookIndex (prog : List FsOp) (name : String) : Option Nat :=
   match prog.findIdx? (· = .hook name) with
